@@ -222,13 +222,13 @@ def _df_fillna(df, method = None, axis = 0, limit = None):
             res = res.fillna(method=m, **params)
         elif m in ['ffill_na', 'ffill_0']: # forward fill but only up to the end of a timeseries
             invalid = np.nan if m == 'ffill_na' else 0.
-            if len(df.shape) == 1:
-                last_valid = df.last_valid_index()
+            if len(res.shape) == 1:
+                last_valid = res.last_valid_index()
                 if last_valid is not None:    
                     res = res.ffill(**params)
                     res[res.index>last_valid] = invalid
             else:
-                res = pd.concat([_df_fillna(res.iloc[:, i], method, **params) for i in range(res.shape[1])], axis=1)
+                res = pd.concat([_df_fillna(res.iloc[:, i], m, **params) for i in range(res.shape[1])], axis=1)
         elif is_date(m):
             res = res.ffill(**params)
             res[res.index>m] = np.nan
